@@ -660,7 +660,7 @@ class HttpProxyPlugin(HttpProtocolHandlerPlugin):
             except Exception as e:  # TimeoutError, socket.gaierror
                 logger.warning(
                     'Unable to connect with upstream %s:%d due to %s' % (
-                        text_(host), port, str(e),
+                        text_(host, errors='replace'), port, str(e),
                     ),
                 )
                 if self.flags.enable_conn_pool and self.upstream:
@@ -668,7 +668,7 @@ class HttpProxyPlugin(HttpProtocolHandlerPlugin):
                     with self.lock:
                         self.upstream_conn_pool.release(self.upstream)
                 raise ProxyConnectionFailed(
-                    text_(host), port, repr(e),
+                    text_(host, errors='replace'), port, repr(e),
                 ) from e
         else:
             raise HttpProtocolException('Both host and port must exist')
